@@ -142,6 +142,14 @@ def run_stream(mod, st, rep, tier, seed, pool, extra_round=0, with_model=False):
             info['errors'] = r['errors'][:3]
             rep.add_violation('correspondence-broken', '[%s] model could not be evaluated: %s' % (st.name, r['errors'][0][:400]),
                               dict(stream=st.name, correspondence=mod.ID + '/' + st.name, errors=r['errors'][:3]), no_input=True)
+        tol = getattr(st, 'tolerated', None)
+        if tol is not None and r['bad']:
+            # cases on which the stream's own independent recomputation shows that floating-point rounding (not modelled: the model is exact)
+            # decides the implementation's result; they are counted, not compared
+            kept = [(idx, code) for idx, code in r['bad'] if code == 2 or not tol(cases[idx], res[idx][0])]
+            info['tolerated_float_rounding'] = len(r['bad']) - len(kept)
+            info['disagreements'] = len(kept)
+            r['bad'] = kept
         bad_by_code = {}
         for idx, code in r['bad']:
             bad_by_code.setdefault(code, []).append(idx)
@@ -281,6 +289,10 @@ def replay(mod, path):
     if st.model:
         common.coq_build()
         res = common.run_cases_v(mod.ID, 'replay', st.prelude, [st.term(r['case'], out)], case_type=getattr(st, 'case_type', None))
+        tol = getattr(st, 'tolerated', None)
+        if res['bad'] and not res['errors'] and tol is not None and all(code != 2 for _, code in res['bad']) and tol(r['case'], out):
+            print('model vs implementation: differ, but floating-point rounding decides the implementation\'s result on this case (not compared)')
+            res['bad'] = []
         print('model vs implementation:', 'agree' if not res['bad'] and not res['errors'] else 'DIFFER %s %s' % (res['bad'], res['errors'][:1]))
         if res['bad'] or res['errors']:
             rc = 1
